@@ -282,8 +282,10 @@ SubmitReady == [][\A e \in Evals : ReadyAtDecision(e)]_vars
 NoDoubleRun == [][\A e \in Evals, t \in Tasks :
                     (waiter[e][t] # "r" /\ waiter'[e][t] = "r") => ~active[t]]_vars
 
+(* success only if every root was seen OK in the evaluation's last decision round (the wait memo of
+   that round may be stale by the time Top returns: the same benign race as for hand-off) *)
 SuccessMeansDone == [][\A e \in Evals : (res[e] = "none" /\ res'[e] = "ok") =>
-                          \A r \in RangeSeq(RootSeq[e]) : tstate[r] = "OK"]_vars
+                          \A r \in RangeSeq(RootSeq[e]) : r \in okw'[e]]_vars
 
 ErrorHasCause == \A e \in Evals : res[e] = "err" => \E t \in Tasks : tstate[t] = "ERROR"
 
@@ -304,8 +306,11 @@ AwaitedIsLive == \A e \in Evals, t \in Tasks :
    The code has one known deviation (known finding KF-C03-needed): Return() re-enqueues a task it
    receives in state LOST ("Re-enqueue immediately") without asking whether anything still needs
    it, so a completed-then-lost task whose completion message was still queued is re-run even if
-   every root is already OK, and the evaluation then keeps working towards it.  NeededOnly
-   allows exactly that (tasks received back LOST count as needed); NeededOnlyStrict does not. *)
+   every root is already OK, and the evaluation then keeps working towards it; likewise, when
+   a returned task clears the waitlist of a dependent, that dependent is enqueued although a
+   concurrent evaluation may meanwhile have completed every root.  NeededOnly allows exactly
+   these (tasks received back LOST, and tasks whose waitlist was just cleared, count as needed);
+   NeededOnlyStrict does not. *)
 NeededFrom(S0) ==
   LET RECURSIVE N(_)
       N(S) == LET S2 == S \cup UNION {DepTasks(t) : t \in {x \in S : tstate[x] # "OK"}}
@@ -316,7 +321,8 @@ NewlyDecided(e) == (todo'[e] \cup batch'[e]) \ (todo[e] \cup batch[e])
 NeededOnlyStrict == [][\A e \in Evals :
                         NewlyDecided(e) \subseteq NeededFrom(PhasesOf(RangeSeq(RootSeq[e])))]_vars
 NeededOnly == [][\A e \in Evals :
-                  NewlyDecided(e) \subseteq NeededFrom(PhasesOf(RangeSeq(RootSeq[e]) \cup lret'[e]))]_vars
+                  LET cleared == {x \in Tasks : counts[e][x] > 0 /\ counts'[e][x] = 0} IN
+                  NewlyDecided(e) \subseteq NeededFrom(PhasesOf(RangeSeq(RootSeq[e]) \cup lret'[e] \cup cleared))]_vars
 
 Terminates == \A e \in UNION {DOMAIN G.roots : G \in Shapes} :
                  <>(e \in Evals => pc[e] \in {"done", "new"})
